@@ -80,13 +80,15 @@ class Graph(NamedTuple):
 def _structure(
     fis: FunctionInteractions, indirect_refs: Dict[DDSPath, PyHash]
 ) -> Graph:
-    nodes: OrderedDict[PyHash, Node] = OrderedDict()
+    # The nodes are identified by their path: the same function may be kept under several paths
+    # (all of them with the same signature).
+    nodes: OrderedDict[DDSPath, Node] = OrderedDict()
     all_refs: Dict[DDSPath, PyHash] = dict(indirect_refs)
     # The head nodes for each function
     head_nodes: OrderedDict[PyHash, List[Node]] = OrderedDict()
     # The set of all known dependencies to a node
-    node_deps: OrderedDict[PyHash, Set[PyHash]] = OrderedDict()
-    deps: OrderedDict[Tuple[PyHash, PyHash], Edge] = OrderedDict()
+    node_deps: OrderedDict[DDSPath, Set[DDSPath]] = OrderedDict()
+    deps: OrderedDict[Tuple[DDSPath, DDSPath], Edge] = OrderedDict()
 
     # Returns the list of head nodes:
     # All the nodes that can be evaluated independently inside a function.
@@ -101,17 +103,17 @@ def _structure(
         sub_nodes: List[Node] = sorted(
             list(
                 dict(
-                    [(n.node_hash, n) for (l_nodes, _) in sub_calls for n in l_nodes]
+                    [(n.path, n) for (l_nodes, _) in sub_calls for n in l_nodes]
                 ).values()
             ),
-            key=lambda n: n.node_hash,
+            key=lambda n: (n.node_hash, n.path),
         )
         # Add implicit dependencies between context-dependent nodes.
         # Current algorithm is not very smart: anything that has parameters is assumed to be context-dependent
         # (even if the parameters are known at introspection time)
-        start_nodes: List[Node] = sub_calls[0][0] if sub_calls else []
-        sub_set: Set[PyHash] = set(
-            [k for n in sub_nodes for k in node_deps[n.node_hash]]
+        start_nodes: List[Node] = list(sub_calls[0][0]) if sub_calls else []
+        sub_set: Set[DDSPath] = set(
+            [k for n in sub_nodes for k in node_deps[n.path]]
         )
         for (l1, fi) in sub_calls[1:]:
             # l1: List[Node]
@@ -123,8 +125,8 @@ def _structure(
             else:
                 for n1 in start_nodes:
                     for n2 in l1:
-                        k1 = n1.node_hash
-                        k2 = n2.node_hash
+                        k1 = n1.path
+                        k2 = n2.path
                         if k1 not in node_deps:
                             node_deps[k1] = set()
                         if k2 not in node_deps:
@@ -142,28 +144,27 @@ def _structure(
                             node_deps[k2].update(node_deps[k1])
                 # Restart the list of deps just based on the last implicit node
                 # It is an approximation of the actual computation flow, but enough for UI purposes
-                start_nodes = l1
+                start_nodes = list(l1)
         if fis_.store_path is None:
             return sub_nodes
         else:
             # We are returning a path -> create a node
             res_node = Node(fis_.store_path, sig)
-            nodes[sig] = res_node
+            nodes[res_node.path] = res_node
             all_refs[fis_.store_path] = sig
-            sub_set.update([n.node_hash for n in sub_nodes])
-            node_deps[res_node.node_hash] = sub_set
+            sub_set.update([n.path for n in sub_nodes])
+            node_deps[res_node.path] = sub_set
             for sub_n in sub_nodes:
-                k = (sub_n.node_hash, res_node.node_hash)
+                k = (sub_n.path, res_node.path)
                 if k not in deps or deps[k].edge_type != DirectEdge:
                     deps[k] = Edge(sub_n.path, res_node.path, DirectEdge)
-                node_deps[res_node.node_hash].update(node_deps[sub_n.node_hash])
+                node_deps[res_node.path].update(node_deps[sub_n.path])
             # Add the indirect references
             for p in fis_.indirect_deps:
                 assert p in all_refs, p
-                sig2 = all_refs[p]
-                if sig2 not in nodes:
-                    nodes[sig2] = Node(p, sig2)
-                k = (sig2, res_node.node_hash)
+                if p not in nodes:
+                    nodes[p] = Node(p, all_refs[p])
+                k = (p, res_node.path)
                 if k not in deps:
                     deps[k] = Edge(p, res_node.path, IndirectEdge)
             return [res_node]
